@@ -74,8 +74,8 @@ def harness_for(seed):
         bpfm = pysym.module("bpf")
         am = pysym.module("arraymap")
         ebpf_mod = pysym.module("ebpf")
-        kern = bpfkernel.Kernel(POSSIBLE[E.choose(len(POSSIBLE),
-                                                  "possible CPUs")])
+        # any number of possible CPUs from the online ones upwards
+        kern = bpfkernel.Kernel(E.int("possible_cpus", ONLINE, 4096))
         undo = kern.install(bpfm)
         undo_cpus = bpfkernel.stub_cpus(am, ONLINE, kern.possible)
         pysym.SYM_BYTEARRAYS = True
@@ -96,7 +96,7 @@ def harness_for(seed):
                 for i, f in enumerate(spec["percpu"]):
                     seq = getattr(e, f"c{i}")
                     seq[0]
-                    seq[len(seq) - 1]
+                    seq[ONLINE - 1]
             t = e.table
             k1, k2 = Key(), Key()
             k1.k0, k2.k0 = 1, 2
@@ -155,8 +155,8 @@ def main(tier, replay_file=None):
                                "per-CPU read and element access, Dict set / get "
                                "/ iteration / pop (present, absent with "
                                "default) / delete / get of an absent key",
-                    cpus=f"{ONLINE} online CPUs, possible CPUs from {POSSIBLE} "
-                         "(engine decision)",
+                    cpus=f"{ONLINE} online CPUs; the number of possible CPUs is "
+                         f"a solver variable in [{ONLINE}, 4096]",
                     outside="formats other than the integer ones; maps pinned "
                             "and re-opened"),
         stubs=["ctypes address taking and the bpf system call replaced by a "
